@@ -76,6 +76,9 @@ var Literals = []string{
 // switch the router to its first-byte index).
 var FanBytes = []string{"a", "b", "c", "d", "e", "f", "g", "h", "1", "2", "-", ".", "é", "z"}
 
+// CJKFan: characters that share their first two UTF-8 bytes (E4 B8).
+var CJKFan = []string{"中", "丰", "丽", "为", "主", "串", "临"}
+
 // Pool is a set of literals and parameter tokens patterns are drawn from.
 type Pool struct {
 	Tokens   []TokSpec
@@ -262,6 +265,12 @@ func (pl *Pool) Table(r *ref.R, n int) []string {
 			}
 			k := r.Range(4, 8)
 			bs := append([]string(nil), FanBytes...)
+			if r.Chance(1, 6) {
+				// siblings that differ inside a multi-byte character: the tree splits literal text at byte granularity,
+				// so their common parent ends in the first two bytes of the character
+				bs = append([]string(nil), CJKFan...)
+				k = r.Range(5, 7)
+			}
 			ref.Shuffle(r, bs)
 			for _, fb := range bs[:k] {
 				add(prefix + fb + ref.Pick(r, []string{"", "x", "/", "/q", "y"}))
